@@ -151,6 +151,30 @@ chk(
     "Trusted: as C01. A directory that is watched with a mask lacking a bit would still answer a create probe (C11's subject).",
 )
 
+chk(
+    "C03", "wdverif/props/c03.py",
+    "justification oracle: every delivered event must belong to the allowed set of an operation issued since the last drain; single-step mode checks the full per-operation contract (primary exactly once, required >= 1, nothing else)",
+    "Exploration: (a) single-step - every applicable operation in each of the 41 tree shapes over {a,b} x {recursive, non-recursive} x "
+    "{normal, full emitter} (4040 cases; thorough: all, quick: 1/5) applied between two drains on the real kernel with the default 0.5 s "
+    "pairing delay, judged against the contract table (create: created + parent modified; rename inside: one moved + both parents + one "
+    "synthetic moved per descendant; move out: deleted; move in: created + synthetic created per descendant; ...); (b) soundness of "
+    "every event of paced random histories in all C01 modes.",
+    "Trusted: the contract table (inotify(7) semantics for the syscalls issued, confirmed on this kernel), the model of the tree kept by the rig.",
+)
+
+chk(
+    "C07", "wdverif/props/c07.py",
+    "threading.excepthook ledger + root-probe + root-deletion contract over unpaced hostile histories, errno injection at inotify_add_watch, directed hold of the emitter's self-stop against unschedule()",
+    "Exploration + fault injection: unpaced histories (operations inside directories after they left the tree, immediate name re-use, "
+    "bursts, replace chains) on InotifyObserver (plain/small reads/slow reader) and PollingObserver; ENOENT/ENOSPC/EACCES/ENOTDIR injected "
+    "at the k-th inotify_add_watch after start-up; rmtree(root) at the end of ~30 % of the histories; emitter self-stop held at every "
+    "executed line of InotifyEmitter.on_thread_stop while unschedule/unschedule_all/stop runs. Violations: any library thread dying "
+    "with an exception, a file created directly in the root afterwards unreported, != 1 DirDeletedEvent(root), emitter alive after root "
+    "loss, observer dead.",
+    "Survival only: coverage and accuracy of events need pacing and are judged by C01-C03. Fault injection is at the module-global "
+    "inotify_add_watch (other lookups fail for real through the races the history produces).",
+)
+
 _PENDING = "check not built yet in this round of work (planned in DESIGN.md section 3); not claimed until its monitor exists"
 _built = {c["id"] for c in CHECKS}
 for n in range(1, 21):
